@@ -93,7 +93,7 @@ structure St where
   now : Int := 0
   dists : List DistIn := []
   sfx : List (Nat × Xfer) := []                    -- outcome of the swap-fee transfer per swap-fee gauge reached in this block
-  leaked : List (String × Int) := []               -- per denomination: coins paid by swap-fee triggers that were not booked (D44), cumulative
+  leaked : List (String × Int) := []               -- per denomination: coins a swap-fee trigger paid without booking them (regression of D44), cumulative
   leakNow : List (String × Int) := []              -- … in the current block
   shareIns : List ShareIn := []
   lendIns : List LendIn := []
@@ -297,17 +297,6 @@ def blockOps (st : St) (d : String) (trigDurs : List Int) : Except String (List 
 def ledgerOf (st : St) (d : String) : Ledger :=
   { bal := lookupBal st.bals d, gauges := (gaugesOf st d).map (·.g), exts := (extsOf st d).map (·.x), sfs := (sfsOf st d).map toSf }
 
-/-- coins a swap-fee trigger of this block pays without booking them (`sfLeak`), per the model run on the block's inputs -/
-def leakOf (st : St) (d : String) (trigDurs : List Int) : Int :=
-  trigDurs.foldl (fun acc dur =>
-    st.gs.foldl (fun acc r =>
-      if r.dur = dur && r.denom = d && r.sf then
-        let dd := match distFor st r.gid with | some di => di.d | none => DistData.err
-        match st.sfx.find? (·.1 = r.gid) with
-        | some (_, .err) => (match sfTrigger (toSf r) dd .err with | .ok (_, sends, _) => acc + sumL sends | .error _ => acc)
-        | _ => acc
-      else acc) acc) 0
-
 /-- predicted per-farmer payouts of one denomination (sends in execution order against the running balance) -/
 def paidOf (st : St) (d : String) (trigDurs : List Int) : List (Nat × Int) :=
   let step1 := trigDurs.foldl (fun (acc : Int × List (Nat × Int)) dur =>
@@ -445,10 +434,8 @@ def runBlock (st0 : St) : St × List String :=
           | none => out) []
     let predBals := ls.foldl (fun b p => setBal b p.1 p.2.bal) st.bals
     let paid := ds.foldl (fun acc d => acc ++ (paidOf st d trigDurs).map (fun p => (d, p.1, p.2))) []
-    let leakNow := (ds.map (fun d => (d, leakOf st d trigDurs))).filter (fun p => p.2 ≠ 0)
-    let leaked := leakNow.foldl (fun acc p => setBal acc p.1 (lookupBal acc p.1 + p.2)) st.leaked
     ({ base with predGs := predGs, predXs := predXs, predBals := predBals, predEpochs := es',
-                 predPaid := sortPaid (mergePaid paid), leakNow := leakNow, leaked := leaked }, bad)
+                 predPaid := sortPaid (mergePaid paid), leakNow := [] }, bad)
 
 /-! ### per-block monitors on the REAL records -/
 
@@ -489,11 +476,11 @@ def custodyMons (tag : String) (st : St) : List String :=
     let gs := (st.gs.filter (·.denom = d)).map (fun r => if r.sf then { r.g with distributed := 0 } else r.g)
     let xs := (extsOf st d).map (·.x)
     let nonSf := (gaugesOf st d).map (·.g)
-    -- coins that swap-fee triggers paid without booking them (finding D44, `sf_gauge_leak_counterexample`) are accounted
-    -- for under their own monitor name, so that `custody` stays sharp for every other cause
+    -- `custody_sf_leak` (regression monitor of the repaired finding D44): custody fails in a denomination in which a swap-fee
+    -- trigger paid coins without booking them (`sf_leak`)
     let lk := lookupBal st.leaked d
-    let ok := decide (remGauges gs + remExts xs ≤ lookupBal st.bals d + lk) && nonSf.all gaugeOk
-    let okLeak := decide (lk = 0) || decide (remGauges gs + remExts xs ≤ lookupBal st.bals d)
+    let ok := decide (remGauges gs + remExts xs ≤ lookupBal st.bals d) && nonSf.all gaugeOk
+    let okLeak := decide (lk = 0) || ok
     let okx := xs.all (fun x => decide (0 ≤ x.avail))
     out ++ (if ok then [] else [s!"MON\t{tag}\tcustody\tdenom={d}"])
         ++ (if okLeak then [] else [s!"MON\t{tag}\tcustody_sf_leak\tdenom={d} unbooked={lk}"])
@@ -512,10 +499,8 @@ def outflowMons (tag : String) (st : St) : List String :=
     -- swap-fee gauges: what they booked as distributed; coins arriving from the fee collectors only raise the balance
     let sfd := sumL ((st.gs.filter (fun r => r.denom = d && r.sf)).map (fun r =>
       match st.prevGs.find? (·.gid = r.gid) with | some p => r.g.distributed - p.g.distributed | none => 0))
-    let lk := lookupBal st.leakNow d
-    (if lookupBal st.prevBals d - lookupBal st.bals d ≤ allocs + extd + sfd + lk then out
-     else out ++ [s!"MON\t{tag}\tepoch_cap\tdenom={d} outflow"])
-      ++ (if lk = 0 then [] else [s!"MON\t{tag}\tsf_leak\tdenom={d} paid-but-not-booked={lk}"])) []
+    if lookupBal st.prevBals d - lookupBal st.bals d ≤ allocs + extd + sfd then out
+    else out ++ [s!"MON\t{tag}\tepoch_cap\tdenom={d} outflow"]) []
 
 /-- external programmes, on the REAL records after the block (`prev` = the real records before it):
 `ext_epoch_cap`       the clause as worded: an epoch books at most `AvailableRewards / daysLeft`, nothing is booked otherwise
@@ -741,7 +726,19 @@ def handle (st : St) (seq : String) (f : List String) : St × List String :=
       let missing := st.predGs.foldl (fun out p =>
         if real.any (·.gid = p.gid) then out else out ++ [s!"DIFF\t{seq}\tgauge {p.gid} missing in impl"]) []
       let mons := gaugeMons seq st.prevGs real
-      ({ st with gs := real }, cmp ++ missing ++ mons)
+      -- `sf_leak` (regression monitor of the repaired finding D44): in a block in which the fee transfer of a swap-fee gauge
+      -- failed after its distribution paid `s > 0` (inputs of this block, `sfDistribute`), the REAL record must have booked `s`
+      let leaks := real.foldl (fun (acc : List (String × Int)) r =>
+        if !r.sf then acc else
+        match st.prevGs.find? (·.gid = r.gid), st.predGs.find? (·.gid = r.gid) with
+        | some p, some q =>
+          let expected := q.g.distributed - p.g.distributed
+          let booked := r.g.distributed - p.g.distributed
+          if q.g.triggered = p.g.triggered && expected > 0 && booked < expected then acc ++ [(r.denom, expected - booked)] else acc
+        | _, _ => acc) []
+      let leakMons := leaks.map (fun p => s!"MON\t{seq}\tsf_leak\tdenom={p.1} paid-but-not-booked={p.2}")
+      let leaked := leaks.foldl (fun acc p => setBal acc p.1 (lookupBal acc p.1 + p.2)) st.leaked
+      ({ st with gs := real, leaked := leaked }, cmp ++ missing ++ mons ++ leakMons)
     | none => (st, [s!"BAD\t{seq}\tgauges"])
   | ["gauge.xprogs", recs] =>
     match recList recs parseX with
